@@ -217,7 +217,8 @@ func (p *Parser) parseReturnStatement() ast.Node {
 	stmt.Token = p.curToken
 
 	// hacky for empty expressions like plain `return`.
-	if p.peekTokenIs(token.SEMICOLON) || p.peekTokenIs(token.RBRACE) || p.peekTokenIs(token.EOF) || p.peekTokenIs(token.EOL) {
+	if p.peekTokenIs(token.SEMICOLON) || p.peekTokenIs(token.RBRACE) || p.peekTokenIs(token.EOF) || p.peekTokenIs(token.EOL) ||
+		p.peekTokenIs(token.LINECOMMENT) { // `return // comment` is a plain return, the comment is not its value.
 		log.Debugf("parseExpression: %s returning nil", p.curToken.DebugString())
 		// nil return value
 		return stmt
